@@ -1622,6 +1622,11 @@ type c07AppliedTable struct {
 	App   *c07TableApp
 	Key   string // the key, in the vocabulary of the invoking function
 	Found bool   // the facts that hold whenever this origin is the one that arrives include "the key was found"
+	// F: the frame the application stands in (the invoking function itself, or a module helper entered from it);
+	// Guards: the facts that hold whenever this application's value is the one that reaches the invocation, in the
+	// invoking function's vocabulary.
+	F      *c07Frame
+	Guards map[string]string
 }
 
 // c07GeneratorArgument decides what a generator invocation is handed: every origin (c07OriginsUntil: through locals, phis
@@ -1656,7 +1661,7 @@ func c07GeneratorArgument(w *World, gc c07GenCall, want map[string]string) (apps
 		if !c07SameRelation(a.Table.Rel, want) {
 			return nil, fmt.Sprintf("%s carries %v, not the relation of the signer's and verifier's tables %v", a.Table.name(), a.Table.Rel, want)
 		}
-		at := c07AppliedTable{App: a, Key: o.F.lift(desc(a.Key))}
+		at := c07AppliedTable{App: a, Key: o.F.lift(desc(a.Key)), F: o.F, Guards: o.Guards}
 		for _, l := range a.foundLabels() {
 			l = o.F.lift(l)
 			if labelHas(o.Guards, l) {
@@ -1671,6 +1676,177 @@ func c07GeneratorArgument(w *World, gc c07GenCall, want map[string]string) (apps
 		return nil, "no value reaches the invocation"
 	}
 	return apps, ""
+}
+
+// c07KeyOfKeySpec decides, on SSA values, that the key a hash table is applied to is hash(signatureAlgorithm(ks)) with ks
+// the key spec of the signing key, for the function `root` that invokes the generator:
+//
+//   - given: ks is root's own parameter of type KeySpec (the only one), or
+//   - obtained: ks is result 0 of a call that yields (KeySpec, error) — the key spec asked from the signing key / the
+//     plugin — and that call's error is known to be nil whenever the algorithm looked up reaches the invocation. A key
+//     spec written down in the code (a literal, a constant hash, a field of some object) does not qualify.
+//
+// Where the three steps (obtain the key spec, take the hash of its signature algorithm, apply the table) stand is not part
+// of the clause: each may be written in the invoking function or in a module helper, cut at any of the two boundaries
+// (helper(ks), helper(hash), helper(signer) that asks for the key spec itself). The key is therefore followed like every
+// other value of this rule set (c07OriginsUntil: a helper's parameter is the argument of the call the frame was entered
+// through, a helper's result is the operand of its Returns, a local that holds one value is that value, a phi is one of
+// its edges under the edge's facts), step by step: every origin of the key must be a call of Algorithm.Hash, every origin
+// of its operand a call of KeySpec.SignatureAlgorithm, and every origin of that operand a key spec as above. The facts
+// start from those of the application's origin (at.Guards: what holds whenever this application is the one whose value
+// arrives at the invocation — the guards of the invocation itself, of the call of the helper, of the helper's success
+// exit), so "the error of the call that delivered the key spec is nil" is required on every path that brings the
+// algorithm to the generator, which is what the clause "a descriptor is produced only for the hash bound to the key" needs.
+func c07KeyOfKeySpec(w *World, root *ssa.Function, at c07AppliedTable) (ok bool, why string) {
+	if at.F == nil || at.App == nil || at.App.Key == nil {
+		return false, "the application's frame is not known"
+	}
+	isCallOf := func(name string) func(ssa.Value) bool {
+		return func(v ssa.Value) bool {
+			c, isC := v.(*ssa.Call)
+			return isC && calleeName(c) == name && len(c.Call.Args) == 1
+		}
+	}
+	// step: every origin of every value of `in` is a one-operand call of `name`; returns the operands
+	step := func(in []c07Origin, name, what string) ([]c07Origin, string) {
+		var out []c07Origin
+		for _, o := range in {
+			os, complete := c07OriginsUntil(w, o.F, unwrap(o.V), o.Guards, isCallOf(name))
+			if !complete {
+				return nil, what + " is too deep to follow"
+			}
+			for _, x := range os {
+				if !isCallOf(name)(x.V) {
+					return nil, what + " may be " + x.F.lift(desc(x.V)) + ", not " + name + "(...)"
+				}
+				out = append(out, c07Origin{V: x.V.(*ssa.Call).Call.Args[0], F: x.F, Guards: x.Guards})
+			}
+		}
+		if len(out) == 0 {
+			return nil, what + " has no origin"
+		}
+		return out, ""
+	}
+	cur := []c07Origin{{V: at.App.Key, F: at.F, Guards: at.Guards}}
+	if cur, why = step(cur, "(core/internal/algorithm.Algorithm).Hash", "the key of the table"); why != "" {
+		return false, why
+	}
+	if cur, why = step(cur, "(core/internal/algorithm.KeySpec).SignatureAlgorithm", "the algorithm whose hash is the key"); why != "" {
+		return false, why
+	}
+	isKeySpecType := func(t types.Type) bool {
+		n := namedOf(t)
+		return n == "core/internal/algorithm.KeySpec" || n == "core/signature.KeySpec"
+	}
+	// result 0 of a call yielding (KeySpec, error): reported as it stands (a module function that asks the plugin for the
+	// key spec is not opened: what it delivers under a nil error *is* the key spec of the key, by its type and role)
+	obtained := func(v ssa.Value) *ssa.Call {
+		ex, isEx := v.(*ssa.Extract)
+		if !isEx || ex.Index != 0 {
+			return nil
+		}
+		src, isC := ex.Tuple.(*ssa.Call)
+		if !isC {
+			return nil
+		}
+		tup, isT := src.Type().(*types.Tuple)
+		if !isT || tup.Len() != 2 || !isErrorType(tup.At(1).Type()) || !isKeySpecType(tup.At(0).Type()) {
+			return nil
+		}
+		return src
+	}
+	nKs := 0
+	for _, p := range root.Params {
+		if isKeySpecType(p.Type()) {
+			nKs++
+		}
+	}
+	n := 0
+	for _, o := range cur {
+		os, complete := c07OriginsUntil(w, o.F, unwrap(o.V), o.Guards, func(v ssa.Value) bool { return obtained(v) != nil })
+		if !complete {
+			return false, "the key spec is too deep to follow"
+		}
+		for _, x := range os {
+			n++
+			if p, isP := x.V.(*ssa.Parameter); isP && x.F.Up == nil && p.Parent() == root && isKeySpecType(p.Type()) {
+				if nKs != 1 {
+					return false, fnName(root) + " is given several key specs"
+				}
+				continue
+			}
+			src := obtained(x.V)
+			if src == nil {
+				return false, "the key spec whose hash keys the table may be " + x.F.lift(desc(x.V)) + ", neither the key spec " + fnName(root) + " was given nor one obtained from the signing key"
+			}
+			if nKs != 0 {
+				return false, fnName(root) + " is given a key spec but keys the table by another one it obtained itself (" + x.F.lift(desc(src)) + ")"
+			}
+			// asked from something the invoking function was handed (its receiver's signer / plugin): a call all of whose
+			// inputs are written down in the code (a key spec name decoded from a constant) is a literal key spec in disguise
+			if up := x.F.lift(desc(src)); !strings.Contains(up, "param:") || strings.Contains(up, "param?:") {
+				return false, "the key spec comes from " + up + ", which does not depend on anything " + fnName(root) + " was given (not the key spec of its signing key)"
+			}
+			if l := x.F.lift("EQ(" + desc(src) + "#err,nil)"); !labelHas(x.Guards, l) {
+				return false, "the key spec " + x.F.lift(desc(x.V)) + " is used without the test that the call that delivered it succeeded (" + l + ")"
+			}
+		}
+	}
+	if n == 0 {
+		return false, "the key spec has no origin"
+	}
+	return true, ""
+}
+
+// c07LiveExits drops from a summary's success-capable exits those that demonstrably return a non-nil error: the exit
+// returns, as its error, a phi of the return block (a single `return ..., err` shared by several failure branches), the
+// engine keeps such exits apart by predecessor (ExitSum.Pred), and the edge taken — predecessor -> return block — is the
+// very branch of a test `e != nil` / `e == nil` on the value e the phi receives over that edge. On that edge e is
+// non-nil, so the function reports a failure there and the exit is not one at which a result is delivered; the clause
+// "every success exit passed the check" says nothing about it. (The engine's own refinement, FnInfo.nonNil, looks at the
+// branches that dominate the predecessor block but not at the predecessor's own terminating branch, which is the case
+// when the failure branch of `if x, err = f(); err == nil { ... }` falls straight into the shared return. This belongs in
+// gate.go; it is done here, on SSA values only, because the engine files are not to be edited.)
+func c07LiveExits(exits []*ExitSum) []*ExitSum {
+	var out []*ExitSum
+	for _, ex := range exits {
+		if c07ExitFailsOnEdge(ex) {
+			continue
+		}
+		out = append(out, ex)
+	}
+	return out
+}
+
+func c07ExitFailsOnEdge(ex *ExitSum) bool {
+	if ex == nil || ex.Ret == nil || len(ex.Ret.Results) == 0 {
+		return false
+	}
+	last := ex.Ret.Results[len(ex.Ret.Results)-1]
+	if !isErrorType(last.Type()) {
+		return false
+	}
+	b := ex.Ret.Block()
+	phi, ok := last.(*ssa.Phi)
+	if !ok || phi.Block() != b || ex.Pred < 0 || ex.Pred >= len(phi.Edges) || ex.Pred >= len(b.Preds) {
+		return false
+	}
+	pred := b.Preds[ex.Pred]
+	iff, ok := blockTerm(pred).(*ssa.If)
+	if !ok || len(pred.Succs) != 2 || pred.Succs[0] == pred.Succs[1] {
+		return false
+	}
+	// a block that occurs twice among the predecessors (both arms of one test) is not told apart by the index
+	n := 0
+	for _, q := range b.Preds {
+		if q == pred {
+			n++
+		}
+	}
+	if n != 1 {
+		return false
+	}
+	return condImpliesNonNil(iff.Cond, pred.Succs[0] == b, phi.Edges[ex.Pred])
 }
 
 // c07KeyOfObtainedKeySpec: the key of the application is hash(signatureAlgorithm(ks)) where ks is result 0 of a call that
